@@ -5,6 +5,7 @@ import (
 	"errors"
 	"fmt"
 	"io"
+	iofs "io/fs"
 	"os"
 	"os/exec"
 	"path/filepath"
@@ -34,7 +35,7 @@ var c09chains = [][]string{{}, {"tmp"}, {"root"}, {"tmp", "root"}, {"tmp/root"},
 	// first elements that begin with dots (hidden directories, "..." is an ordinary name), directly on the unrooted file system
 	{".hid"}, {".hid/sub", "a"}, {"...", "root"}, {".", ".hid"}, {"."}, {".", "."}}
 
-var c09elems = []string{"a", "root", "rootx", ".", "..", "", `a\b`, `..\x`, "C:", "tmp"}
+var c09elems = []string{"a", "root", "rootx", ".", "..", "", `a\b`, `..\x`, "C:", "tmp", "caf\xe9"} // (the last one is not valid UTF-8: no FS path has it)
 
 func c09names() []string {
 	var out []string
@@ -275,6 +276,18 @@ func c09run(env *core.Env, idx int) core.CaseResult {
 				continue
 			}
 			vfs := cur.(*hpos.FS)
+			if len(chain) > 0 {
+				// SubVolume on a file system that already has a Sub root: refused, or the root stays where it is
+				if again, aerr := vfs.SubVolume(vol); aerr == nil {
+					res.Count("subvolume_after_sub_accepted", 1)
+					if afs, ok := again.(*hpos.FS); ok {
+						want, _ := modelToOS(conv, chain, "probe")
+						if got, gerr := afs.ToOSPath("probe"); gerr != nil || got != want {
+							res.Violate("C09|linux|SubVolume|after-Sub|root-lost", fmt.Sprintf("Sub chain %v, then SubVolume(%q) was accepted and the file system now maps \"probe\" to %q, %v; the root puts it at %q", chain, vol, got, gerr, want), wit(vol))
+						}
+					}
+				}
+			}
 			for _, n := range names {
 				res.Evals++
 				want, valid := modelToOS(conv, chain, n)
@@ -398,7 +411,7 @@ func c09run(env *core.Env, idx int) core.CaseResult {
 			res.NTKeys = append(res.NTKeys, core.Hash([]any{cs.Conv, cs.Chain, "os", p}))
 		}
 		switch {
-		case gerr == nil && !hackpadfs.ValidPath(got):
+		case gerr == nil && !iofs.ValidPath(got):
 			res.Violate("C09|"+convName+"|FromOSPath|returns-invalid-fs-path", fmt.Sprintf("FromOSPath(%q) = %q, which is not a valid FS path (root %v)", p, got, rootEl), wit(p))
 		case gerr == nil && !inside:
 			why := "outside-root"
@@ -560,6 +573,17 @@ func c09straceChild(args []string) int {
 		{K: "MkdirAll", P: "d/f/g", Perm: 0o755}, {K: "Chmod", P: "nope", Perm: 0o600}, {K: "RemoveAll", P: "d/f/z"}, {K: "OpenClose", P: ".", Flag: os.O_RDWR}, {K: "Stat", P: "."},
 		{K: "Symlink", P: "d/f", P2: "d"}, {K: "Lstat", P: "nolink"}, {K: "Chtimes", P: "zz", MTime: 5}, {K: "Create", P: "d/f/under-file"},
 	}
+	// names that begin with the very elements the root consists of (root tmp/root, name tmp/root/missing/x): the
+	// error names the caller's name, not what is left after taking the root off twice
+	for _, rel := range []string{strings.Join(rootElems(chain), "/"), strings.TrimPrefix(root, "/")} {
+		if rel == "" {
+			continue
+		}
+		for _, k := range []string{"Create", "Stat", "Mkdir", "OpenClose", "Remove", "ReadFile", "Chmod", "Lstat"} {
+			steps = append(steps, fsx.Step{K: k, P: rel + "/missing/x", Perm: 0o755, Flag: os.O_RDWR | os.O_CREATE})
+		}
+		steps = append(steps, fsx.Step{K: "Mkdir", P: rel, Perm: 0o755}, fsx.Step{K: "Mkdir", P: rel, Perm: 0o755}, fsx.Step{K: "Create", P: rel}, fsx.Step{K: "Rename", P: rel + "/nope", P2: rel + "/nope2"})
+	}
 	n := 0
 	for _, st := range steps {
 		mark("b")
@@ -574,7 +598,7 @@ func c09straceChild(args []string) int {
 				if st.K == "MkdirAll" || st.K == "RemoveAll" { // may name an ancestor or a descendant of the argument
 					related = related || strings.HasPrefix(st.P, r.EPath+"/") || strings.HasPrefix(r.EPath, st.P+"/")
 				}
-				if r.EPath == "" || strings.HasPrefix(r.EPath, "/") || strings.Contains(r.EPath, "jail") || !related {
+				if r.EPath == "" || strings.HasPrefix(r.EPath, "/") || (strings.Contains(r.EPath, "jail") && !strings.Contains(st.P, "jail")) || !related {
 					bad = fmt.Sprintf("%s -> Path=%q", st, r.EPath)
 				}
 			case "LinkError":
